@@ -1375,7 +1375,7 @@ public:
 
         // find minimum and second minimum reduced cost over columns.
         uMin = assignCost(i, 0) - v[0];
-        j1 = 0;
+        j1 = j2 = 0;           // (j2 is assigned in the loop unless every other reduced cost overflowed)
         uSubMin = -std::log(0);
         for (j = 1; j < dim; j++)
         {
